@@ -24,8 +24,10 @@ import (
 	"math/big"
 	"runtime"
 	"strings"
+	"time"
 
 	webp "github.com/deepteams/webp"
+	"github.com/deepteams/webp/animation"
 
 	. "verifharness/hlib"
 )
@@ -206,7 +208,9 @@ func (d dimImage) ColorModel() color.Model { return color.NRGBAModel }
 func (d dimImage) Bounds() image.Rectangle {
 	return image.Rectangle{Min: image.Point{}, Max: image.Point{X: d.w, Y: d.h}}
 }
-func (d dimImage) At(x, y int) color.Color { return color.NRGBA{uint8(x * 7), uint8(y * 13), uint8(x + y), 255} }
+func (d dimImage) At(x, y int) color.Color {
+	return color.NRGBA{uint8(x * 7), uint8(y * 13), uint8(x + y), 255}
+}
 
 func testImage(rng *Rand, w, h int, alpha int) *image.NRGBA {
 	im := image.NewNRGBA(image.Rect(0, 0, w, h))
@@ -576,6 +580,7 @@ func run(c *Ctx) {
 	directEquivalences(c, rng.Fork())
 	explicitValues(c)
 	quantizerRange(c)
+	animationOptions(c, rng.Fork())
 	c.Sample(map[string]any{"rows": len(rows), "example_case": "eff 0 0 0 16 16 1 " + optsLine(&bases[2])})
 }
 
@@ -757,7 +762,13 @@ type explicitPair struct {
 func explicitPairs() []explicitPair {
 	def := func() webp.EncoderOptions { return *webp.DefaultOptions() }
 	target := func() webp.EncoderOptions { o := *webp.DefaultOptions(); o.TargetSize = 600; o.Pass = 6; return o }
-	strong := func() webp.EncoderOptions { o := *webp.DefaultOptions(); o.Quality = 30; o.FilterStrength = 80; return o }
+	strong := func() webp.EncoderOptions {
+		o := *webp.DefaultOptions()
+		o.Quality = 30
+		o.FilterStrength = 80
+		return o
+	}
+	ll := func() webp.EncoderOptions { return webp.EncoderOptions{Lossless: true, Quality: 75, Method: 4} }
 	return []explicitPair{
 		{"AlphaQuality", "0 is an explicit value (range 0-100; values below 100 quantize the alpha levels), only negatives mean 100",
 			func(o *webp.EncoderOptions) { o.AlphaQuality = 0 }, func(o *webp.EncoderOptions) { o.AlphaQuality = 100 }, def},
@@ -807,35 +818,54 @@ func explicitPairs() []explicitPair {
 			func(o *webp.EncoderOptions) { o.Method = 0 }, func(o *webp.EncoderOptions) { o.Method = 4 }, def},
 		{"Lossless", "Lossless selects VP8L",
 			func(o *webp.EncoderOptions) { o.Lossless = true }, func(o *webp.EncoderOptions) { o.Lossless = false }, def},
+		{"Exact", "lossless: Exact keeps the RGB values under transparent pixels instead of zeroing them",
+			func(o *webp.EncoderOptions) { o.Exact = true }, func(o *webp.EncoderOptions) { o.Exact = false }, ll},
+		{"Method", "lossless: 0 = fastest, 6 = best compression",
+			func(o *webp.EncoderOptions) { o.Method = 0 }, func(o *webp.EncoderOptions) { o.Method = 6 }, ll},
+		{"Quality", "lossless: Quality controls the compression effort",
+			func(o *webp.EncoderOptions) { o.Quality = 0 }, func(o *webp.EncoderOptions) { o.Quality = 100 }, ll},
 	}
 }
 
 func explicitValues(c *Ctx) {
 	im := observableImage()
-	for _, p := range explicitPairs() {
-		oa, ob := p.base(), p.base()
-		p.a(&oa)
-		p.b(&ob)
-		runtime.GC()
-		runtime.GC()
-		ra := encode(im, &oa)
-		runtime.GC()
-		runtime.GC()
-		rb := encode(im, &ob)
-		c.D.Evaluations += 2
-		rep := map[string]any{"image": "observableImage() 48x40, graded alpha", "options_a": optsLine(&oa), "options_b": optsLine(&ob), "documentation": p.why}
-		if ra.panicked != "" || rb.panicked != "" {
-			c.Violate("panic", "webp.Encode panicked: "+ra.panicked+rb.panicked, rep)
-			continue
-		}
-		if ra.err != nil || rb.err != nil {
-			c.Violate("rejected-valid:"+p.field, "an in-range explicit value was rejected", rep)
-			continue
-		}
-		c.Count("explicit_value_pairs")
-		c.Nontrivial("explicit:" + p.field + optsLine(&oa))
-		if bytes.Equal(ra.out, rb.out) {
-			c.Violate("explicit-value-ignored:"+p.field, "two documented-distinct explicit values give byte-identical files ("+p.why+")", rep)
+	for _, pm := range explicitPairs() {
+		for _, meta := range []bool{false, true} {
+			p := pm
+			oa, ob := p.base(), p.base()
+			p.a(&oa)
+			p.b(&ob)
+			if meta {
+				oa.EXIF, ob.EXIF = []byte{1, 2, 3, 4}, []byte{1, 2, 3, 4}
+				if p.field == "Lossless" || !(oa.Lossless || c.Thorough() || p.field == "Exact" || p.field == "AlphaQuality") {
+					continue // quick tier: with metadata only the pairs whose code path changes with it
+				}
+			}
+			runtime.GC()
+			runtime.GC()
+			ra := encode(im, &oa)
+			runtime.GC()
+			runtime.GC()
+			rb := encode(im, &ob)
+			c.D.Evaluations += 2
+			rep := map[string]any{"image": "observableImage() 48x40, graded alpha", "options_a": optsLine(&oa), "options_b": optsLine(&ob), "documentation": p.why}
+			if ra.panicked != "" || rb.panicked != "" {
+				c.Violate("panic", "webp.Encode panicked: "+ra.panicked+rb.panicked, rep)
+				continue
+			}
+			if ra.err != nil || rb.err != nil {
+				c.Violate("rejected-valid:"+p.field, "an in-range explicit value was rejected", rep)
+				continue
+			}
+			c.Count("explicit_value_pairs")
+			c.Nontrivial("explicit:" + p.field + optsLine(&oa))
+			if bytes.Equal(ra.out, rb.out) {
+				key := "explicit-value-ignored:" + p.field
+				if meta {
+					key += "-with-metadata"
+				}
+				c.Violate(key, "two documented-distinct explicit values give byte-identical files ("+p.why+")", rep)
+			}
 		}
 	}
 }
@@ -845,9 +875,10 @@ func explicitValues(c *Ctx) {
 // [QMin, QMax] must behave exactly as the clamped value, with or without TargetSize / TargetPSNR,
 // and for QMin == QMax the output must not depend on Quality at all.  (Dithering is left out:
 // its amplitude is documented as a function of Quality itself.)
-//   qrange-ignored:<target>  the file is the unclamped encoding (closer in size to the plain
-//                            encoding at Quality than to the one at the clamped quality)
-//   qrange-inexact:<target>  near the clamped encoding but not byte-identical to it
+//
+//	qrange-ignored:<target>  the file is the unclamped encoding (closer in size to the plain
+//	                         encoding at Quality than to the one at the clamped quality)
+//	qrange-inexact:<target>  near the clamped encoding but not byte-identical to it
 func quantizerRange(c *Ctx) {
 	im := observableImage()
 	fresh := func(o webp.EncoderOptions) ([]byte, bool) {
@@ -950,6 +981,150 @@ func quantizerRange(c *Ctx) {
 	}
 }
 
+// animationOptions: animation.EncodeOptions is never validated.  Correspondence of the option
+// sanitizers with the model; totality on the real encoder: for every extreme value of every
+// field (Quality, Kmin, Kmax, LoopCount over MinInt..MaxInt, Lossless, AllowMixed), adding
+// frames and closing never panics and, when it succeeds, writes a file that decodes to the
+// same number of... at least one frame; LoopCount arrives clamped.
+const animTimeout = 6 * time.Second
+
+func animationOptions(c *Ctx, rng *Rand) {
+	ints := []int{minInt, minInt + 1, -31, -1, 0, 1, 2, 3, 29, 30, 31, 32, 50, 60, 61, 62, 100, 101, 65535, 65536, maxInt - 31, maxInt - 1, maxInt}
+	for _, a := range ints {
+		for _, b := range ints {
+			x, y := animation.VerifSanitizeKeyframeOptions(a, b)
+			c.Case(fmt.Sprintf("sanitize %d %d", a, b), fmt.Sprintf("%d %d", x, y))
+			c.D.Evaluations++
+		}
+	}
+	for i := 0; i < 300; i++ {
+		a, b := rng.Range(-5, 200), rng.Range(-5, 200)
+		x, y := animation.VerifSanitizeKeyframeOptions(a, b)
+		c.Case(fmt.Sprintf("sanitize %d %d", a, b), fmt.Sprintf("%d %d", x, y))
+		c.D.Evaluations++
+	}
+	c.Nontrivial("anim:sanitize")
+	for _, v := range ints {
+		var buf bytes.Buffer
+		e := animation.NewEncoder(&buf, 4, 4, &animation.EncodeOptions{LoopCount: v})
+		_, _, _, _, _, _, loop := animation.VerifEncoderState(e)
+		c.Case(fmt.Sprintf("loop %d", v), fmt.Sprint(loop))
+		c.D.Evaluations++
+	}
+	c.Nontrivial("anim:loop")
+
+	frame := func(k int, alpha bool) *image.NRGBA {
+		im := image.NewNRGBA(image.Rect(0, 0, 20, 18))
+		s := uint32(12345 + k*977)
+		for i := 0; i < 20*18; i++ {
+			s = s*1664525 + 1013904223
+			x, y := i%20, i/20
+			im.Pix[i*4], im.Pix[i*4+1], im.Pix[i*4+2], im.Pix[i*4+3] = uint8(x*9+k*40), uint8(y*7)^uint8(s>>28), uint8(k*60), 255
+			if alpha && x < 4 && y < 4 {
+				im.Pix[i*4+3] = uint8(s >> 24)
+			}
+		}
+		return im
+	}
+	try := func(o animation.EncodeOptions, n int, alpha bool) {
+		res, pan := "", ""
+		var buf bytes.Buffer
+		done := make(chan struct{})
+		go func() {
+			defer close(done)
+			defer func() {
+				if r := recover(); r != nil {
+					pan = fmt.Sprint(r)
+				}
+			}()
+			e := animation.NewEncoder(&buf, 20, 18, &o)
+			if e == nil {
+				res = "nil encoder for a valid canvas"
+				return
+			}
+			for k := 0; k < n; k++ {
+				if err := e.AddFrame(frame(k, alpha), 40*time.Millisecond); err != nil {
+					res = "AddFrame: " + err.Error()
+					return
+				}
+			}
+			if err := e.Close(); err != nil {
+				res = "Close: " + err.Error()
+				if buf.Len() != 0 {
+					res += fmt.Sprintf(" (after writing %d bytes)", buf.Len())
+				}
+				return
+			}
+			a, err := animation.DecodeBytes(buf.Bytes())
+			if err != nil {
+				res = "written file does not parse: " + err.Error()
+				return
+			}
+			if err := a.DecodeFrames(); err != nil {
+				res = "written file does not decode: " + err.Error()
+				return
+			}
+			wantLoop := o.LoopCount
+			if wantLoop < 0 {
+				wantLoop = 0
+			}
+			if wantLoop > 65535 {
+				wantLoop = 65535
+			}
+			if len(a.Frames) > 1 && a.LoopCount != wantLoop {
+				res = fmt.Sprintf("loop count %d written, documented clamp gives %d", a.LoopCount, wantLoop)
+			}
+		}()
+		c.D.Evaluations++
+		rep := map[string]any{"options": fmt.Sprintf("%+v", o), "frames": n, "alpha": alpha, "canvas": "20x18, frame(k) of harness/c20"}
+		select {
+		case <-done:
+		case <-time.After(animTimeout):
+			// the worker goroutine cannot be stopped; it ends with the process
+			key := "anim-hang"
+			if o.Lossless && (o.Quality > 100 || o.Quality < 0) {
+				key = "anim-hang-lossless-quality-out-of-range"
+			}
+			c.Violate(key, fmt.Sprintf("adding %d small frames did not finish within %v", n, animTimeout), rep)
+			return
+		}
+		c.Count("anim_option_runs")
+		c.Nontrivial(fmt.Sprintf("anim:%+v:%d", o, n))
+		switch {
+		case pan != "":
+			c.Violate("anim-panic", "the animation encoder panicked: "+pan, rep)
+		case strings.HasPrefix(res, "Close:") && strings.Contains(res, "after writing"):
+			c.Violate("anim-error-wrote-bytes", res, rep)
+		case strings.HasPrefix(res, "written file"), strings.HasPrefix(res, "loop count"), strings.HasPrefix(res, "nil encoder"):
+			c.Violate("anim-invalid-output", res, rep)
+		}
+	}
+	qs := []int{minInt, -1, 0, 1, 100, 101, 1 << 24, maxInt}
+	for _, q := range qs {
+		for _, ll := range []bool{false, true} {
+			for _, mixed := range []bool{false, true} {
+				if mixed && !c.Thorough() && q != -1 && q != 101 {
+					continue
+				}
+				try(animation.EncodeOptions{Quality: q, Lossless: ll, AllowMixed: mixed}, 1, true)
+				if q == 1<<24 && ll {
+					continue // one run is enough to show a hang (its goroutine keeps a CPU busy until exit)
+				}
+				try(animation.EncodeOptions{Quality: q, Lossless: ll, AllowMixed: mixed}, 3, true)
+			}
+		}
+	}
+	ks := []int{minInt, -1, 0, 1, 2, 3, 31, maxInt}
+	for _, km := range ks {
+		for _, kx := range ks {
+			try(animation.EncodeOptions{Quality: 60, Kmin: km, Kmax: kx}, 4, false)
+		}
+	}
+	for _, lc := range []int{minInt, -1, 0, 1, 65535, 65536, maxInt} {
+		try(animation.EncodeOptions{Quality: 60, LoopCount: lc}, 2, false)
+	}
+}
+
 // ---------------------------------------------------------------------------
 // byte-level equivalences on the real encoder
 
@@ -989,7 +1164,13 @@ func directEquivalences(c *Ctx, rng *Rand) {
 		{"default", *webp.DefaultOptions()},
 		{"q60m3", webp.EncoderOptions{Quality: 60, Method: 3, SNSStrength: -1, FilterStrength: -1, FilterType: -1, Segments: -1, Pass: -1, QMax: -1, AlphaCompression: -1, AlphaFiltering: -1, AlphaQuality: -1}},
 		{"photo40m6", func() webp.EncoderOptions { o := *webp.OptionsForPreset(webp.PresetPhoto, 40); o.Method = 6; return o }()},
-		{"m0parts3", func() webp.EncoderOptions { o := *webp.DefaultOptions(); o.Method = 0; o.Partitions = 3; o.Quality = 90; return o }()},
+		{"m0parts3", func() webp.EncoderOptions {
+			o := *webp.DefaultOptions()
+			o.Method = 0
+			o.Partitions = 3
+			o.Quality = 90
+			return o
+		}()},
 		{"target400", func() webp.EncoderOptions { o := *webp.DefaultOptions(); o.TargetSize = 400; o.Pass = 6; return o }()},
 		{"psnr38prep3sharp", func() webp.EncoderOptions {
 			o := *webp.DefaultOptions()
